@@ -73,3 +73,88 @@ mod render {
         unsafe { assert!(ok && P_CALLS == 1 && (if wide { P_KIND == 3 && P_VAL == bits64 as u128 } else { P_KIND == 2 && P_VAL == bits32 as u128 })); }
     }
 }
+// ---------- whole integer_branch / float_branch (rules R9 + R11), with Branch::select replaced by its contract ----------
+// `Branch::select(c, t, f)` forces t iff c (proved on the real helper by `branch::branch_select_contract` below and by unit c06_kani
+// select::branch_select_order). Behind a symbolic condition its clone of the chosen continuation does not finish in CBMC (measured,
+// 20 min), so in the whole-function harnesses it is replaced (kani::stub) by a stub that reports WHICH continuation was chosen.
+#[cfg(kani)]
+mod branch {
+    use super::*;
+    fn marker(v: i64) -> SemValue { SemValue::Literal(Literal::Integer(IntegerLiteral::Int64(v))) }
+    fn marker_of(v: &SemValue) -> i32 { match v { SemValue::Literal(Literal::Integer(IntegerLiteral::Int64(m))) => *m as i32, _ => -1 } }
+    /// CONTRACT STUB: Err(1000 + marker of the continuation that would be forced)
+    fn select_stub(condition: bool, when_true: &SemValue, when_false: &SemValue) -> Result<Computation, i32> {
+        Err(1000 + marker_of(if condition { when_true } else { when_false }))
+    }
+    /// the real Branch::select, both conditions: forces `when_true` iff the condition holds, and nothing else
+    #[kani::proof]
+    fn branch_select_contract() {
+        let c: bool = kani::any();
+        let (t, f) = (marker(11), marker(12));
+        let r = Branch::select(c, &t, &f);
+        let got = match &r { Ok(Computation::Force(Force(v))) => match v.as_ref() { Value::SemValue(s) => marker_of(s), _ => -2 }, _ => -3 };
+        core::mem::forget(r); core::mem::forget(t); core::mem::forget(f);
+        assert!(got == if c { 11 } else { 12 });
+    }
+    fn any_cmp() -> IntegerOperation { let k: u8 = kani::any(); match k % 3 { 0 => IntegerOperation::Eq, 1 => IntegerOperation::Lt, _ => IntegerOperation::Gt } }
+    fn any_fcmp() -> FloatOperation { let k: u8 = kani::any(); match k % 3 { 0 => FloatOperation::Eq, 1 => FloatOperation::Lt, _ => FloatOperation::Gt } }
+    /// whole integer_branch at one type, ALL operand pairs and the three comparisons: destructures [first, second, when_true, when_false]
+    /// in that order, compares (first, second) IN THE CARRIER'S OWN DOMAIN (signed as signed, unsigned as unsigned) and selects
+    /// when_true (3rd) iff the comparison holds
+    macro_rules! int_branch {
+        ($name:ident, $ty:ident, $prim:ty) => {
+            #[kani::proof]
+            #[kani::stub(extracted::Branch::select, select_stub)]
+            fn $name() {
+                let (a, b): ($prim, $prim) = (kani::any(), kani::any());
+                let op = any_cmp();
+                let args = [SemValue::Literal(Literal::Integer(IntegerLiteral::$ty(a))), SemValue::Literal(Literal::Integer(IntegerLiteral::$ty(b))), marker(11), marker(12)];
+                let r = integer_branch(IntegerType::$ty, op, &args);
+                let got = r.as_ref().err().copied();
+                core::mem::forget(r); core::mem::forget(args);
+                let holds = match op { IntegerOperation::Eq => a == b, IntegerOperation::Lt => (a as i128) < (b as i128), _ => (a as i128) > (b as i128) };
+                assert!(got == Some(if holds { 1011 } else { 1012 }));
+            }
+        };
+    }
+    int_branch!(integer_branch_whole_int8, Int8, i8);
+    int_branch!(integer_branch_whole_int16, Int16, i16);
+    int_branch!(integer_branch_whole_int32, Int32, i32);
+    int_branch!(integer_branch_whole_int64, Int64, i64);
+    int_branch!(integer_branch_whole_uint8, UInt8, u8);
+    int_branch!(integer_branch_whole_uint16, UInt16, u16);
+    int_branch!(integer_branch_whole_uint32, UInt32, u32);
+    int_branch!(integer_branch_whole_uint64, UInt64, u64);
+    /// whole float_branch at both widths, ALL bit patterns: IEEE comparison at that width (NaN unordered, -0 == +0), operands in order
+    #[kani::proof]
+    #[kani::stub(extracted::Branch::select, select_stub)]
+    fn float_branch_whole_f64() {
+        let (a, b): (u64, u64) = (kani::any(), kani::any());
+        let op = any_fcmp();
+        let args = [SemValue::Literal(Literal::Float(FloatLiteral::Float64(a))), SemValue::Literal(Literal::Float(FloatLiteral::Float64(b))), marker(11), marker(12)];
+        let r = float_branch(FloatType::Float64, op, &args);
+        let got = r.as_ref().err().copied();
+        core::mem::forget(r); core::mem::forget(args);
+        let (x, y) = (f64::from_bits(a), f64::from_bits(b));
+        let holds = match op { FloatOperation::Eq => x == y, FloatOperation::Lt => x < y, _ => x > y };
+        assert!(got == Some(if holds { 1011 } else { 1012 }));
+        // independent anchors of the IEEE order: NaN is unordered; the two zeros are equal
+        if x.is_nan() || y.is_nan() { assert!(got == Some(1012)); }
+        if a == 0 && b == 0x8000_0000_0000_0000 { assert!(got == Some(if matches!(op, FloatOperation::Eq) { 1011 } else { 1012 })); }
+    }
+    #[kani::proof]
+    #[kani::stub(extracted::Branch::select, select_stub)]
+    fn float_branch_whole_f32() {
+        let (a, b): (u32, u32) = (kani::any(), kani::any());
+        let op = any_fcmp();
+        let args = [SemValue::Literal(Literal::Float(FloatLiteral::Float32(a))), SemValue::Literal(Literal::Float(FloatLiteral::Float32(b))), marker(11), marker(12)];
+        let r = float_branch(FloatType::Float32, op, &args);
+        let got = r.as_ref().err().copied();
+        core::mem::forget(r); core::mem::forget(args);
+        let (x, y) = (f32::from_bits(a), f32::from_bits(b));
+        let holds = match op { FloatOperation::Eq => x == y, FloatOperation::Lt => x < y, _ => x > y };
+        assert!(got == Some(if holds { 1011 } else { 1012 }));
+        if x.is_nan() || y.is_nan() { assert!(got == Some(1012)); }
+        if a == 0 && b == 0x8000_0000 { assert!(got == Some(if matches!(op, FloatOperation::Eq) { 1011 } else { 1012 })); }
+    }
+}
